@@ -34,6 +34,11 @@ Section AccumProofs.
   Notation apply_step := (apply_step V vzero vadd vopp).
   Notation run_steps := (run_steps V vzero vadd vopp).
   Notation a_init := (a_init V vzero).
+  Notation zero_new_areas := (zero_new_areas V vzero).
+  Notation zero_new := (zero_new V vzero).
+  Notation strip_sides := (strip_sides V).
+  Notation recalc_asis := (recalc_asis V vzero vadd vopp).
+  Notation recalc_fixed := (recalc_fixed V vzero vadd vopp).
 
   (* ---------------------------------------------------------------- group facts *)
   Lemma vadd_0_r a : vadd a vzero = a.
@@ -323,6 +328,8 @@ Section AccumProofs.
     | DEvaluate _ => True
     | DRefine removed added => refine_ok s removed added
     | DEvaluateDW _ => False
+    | DSide _ _ => False          (* side evaluations: see the section on side evaluations below *)
+    | DEstimate _ => True
     end.
 
   Fixpoint wf_from (clear : bool) (s : astate) (steps : list (dstep V)) : Prop :=
@@ -334,10 +341,12 @@ Section AccumProofs.
   Theorem running_total_inv steps : forall s, Inv2 s -> wf_from true s steps -> Inv2 (run_steps true steps s).
   Proof.
     induction steps as [|st r IH]; intros s H W; cbn; [exact H|]. destruct W as [Wk Wr].
-    apply IH; [|exact Wr]. destruct st as [parts|removed added|xs]; cbn [Accum.apply_step].
+    apply IH; [|exact Wr]. destruct st as [parts|removed added|xs|sid sx|sid]; cbn [Accum.apply_step].
     - apply inv2_evaluate_clear. exact H.
     - apply inv2_refine; [exact (proj1 H)|exact Wk].
     - destruct Wk.
+    - destruct Wk.
+    - exact H.
   Qed.
 
   (* ---------------------------------------------------------------- the loop as the code runs it: evaluate (refine evaluate)* *)
@@ -477,6 +486,266 @@ Section AccumProofs.
     rewrite A, B, A', B', reevaluate_ids. auto.
   Qed.
 
+
+  (* ================================================================ side evaluations (apply_to_combi_result = False) *)
+  (* A side evaluation adds its partial result to area.value of the evaluated area only; the areas it is applied to are the
+     freshly created (not yet evaluated) areas and temporary areas outside the container.  Claim: whatever side / estimate
+     evaluations are interleaved with the driver's steps, running total, container value and the stored results of all
+     evaluated areas are those of the driver without them. *)
+
+  Lemma memZ_In x l : memZ x l = true <-> In x l.
+  Proof.
+    induction l as [|y l IH]; cbn; [split; [discriminate|intros []]|].
+    rewrite Bool.orb_true_iff, IH, Z.eqb_eq. reflexivity.
+  Qed.
+
+  Lemma zna_ids news l : map fst (zero_new_areas news l) = map fst l.
+  Proof.
+    unfold Accum.zero_new_areas. rewrite map_map. apply map_ext. intros [i v]. cbn [fst]. destruct (memZ i news); reflexivity.
+  Qed.
+
+  Lemma zna_nil l : zero_new_areas [] l = l.
+  Proof. unfold Accum.zero_new_areas. cbn [memZ]. rewrite <- (map_id l) at 2. apply map_ext. intros p. reflexivity. Qed.
+
+  Lemma zero_new_clear s : st_new s = [] -> zero_new s = s.
+  Proof. intro E. unfold Accum.zero_new. rewrite E, zna_nil. destruct s; cbn in *; subst; reflexivity. Qed.
+
+  (* overwriting the value of a new area is invisible after blanking *)
+  Lemma zna_set news id w l : memZ id news = true -> zero_new_areas news (area_set id w l) = zero_new_areas news l \/ area_get id l = None.
+  Proof.
+    intro M. induction l as [|[i u] r IH]; [right; reflexivity|].
+    cbn [Accum.area_set Accum.area_get]. destruct (i =? id) eqn:E.
+    - left. apply Z.eqb_eq in E. subst i. unfold Accum.zero_new_areas. cbn [map fst]. rewrite M. reflexivity.
+    - destruct IH as [IH|IH]; [left|right; exact IH].
+      unfold Accum.zero_new_areas in *. cbn [map]. rewrite IH. reflexivity.
+  Qed.
+
+  Lemma area_get_zna news id l :
+    area_get id (zero_new_areas news l) = if memZ id news then (match area_get id l with Some _ => Some vzero | None => None end) else area_get id l.
+  Proof.
+    induction l as [|[i u] r IH]; [cbn; destruct (memZ id news); reflexivity|].
+    unfold Accum.zero_new_areas in *. cbn [map fst Accum.area_get].
+    destruct (memZ i news) eqn:Mi; cbn [Accum.area_get fst]; destruct (i =? id) eqn:E.
+    - apply Z.eqb_eq in E. subst i. rewrite Mi. reflexivity.
+    - exact IH.
+    - apply Z.eqb_eq in E. subst i. rewrite Mi. reflexivity.
+    - exact IH.
+  Qed.
+
+  (* a side evaluation on a new area, or on an area that is not in the container, is invisible modulo blanking *)
+  Definition side_ok (s : astate) (id : Z) : Prop := In id (st_new s) \/ ~ In id (ids s).
+
+  Lemma side_invisible s id x : side_ok s id -> zero_new (apply_event s (ASide id x)) = zero_new s.
+  Proof.
+    intros H. cbn [Accum.apply_event]. destruct (area_get id (st_areas s)) as [v|] eqn:G; [|reflexivity].
+    destruct H as [H|H].
+    - unfold Accum.zero_new. cbn [st_areas st_new st_total st_cont].
+      destruct (zna_set (st_new s) id (vadd v x) (st_areas s) (proj2 (memZ_In id (st_new s)) H)) as [E|E]; [rewrite E; reflexivity|congruence].
+    - exfalso. apply H. apply area_get_In. rewrite G. discriminate.
+  Qed.
+
+  Lemma side_keeps_acc s id x :
+    st_total (apply_event s (ASide id x)) = st_total s /\ st_cont (apply_event s (ASide id x)) = st_cont s /\
+    st_new (apply_event s (ASide id x)) = st_new s /\ ids (apply_event s (ASide id x)) = ids s.
+  Proof.
+    cbn [Accum.apply_event]. destruct (area_get id (st_areas s)) as [v|] eqn:G; [|auto].
+    unfold ids. cbn [st_areas st_new st_total st_cont]. rewrite (area_set_ids id _ _ v G). auto.
+  Qed.
+
+  (* ... whereas the same evaluation WITH apply_to_combi_result pollutes the reported value (the seeded defect) *)
+  Theorem side_with_flag_pollutes s id x bc : st_total (apply_event s (AEval id x true bc)) = vadd (st_total s) x.
+  Proof. reflexivity. Qed.
+
+  (* on an area of the container the raw evaluate_area event with both flags off IS the side evaluation *)
+  Lemma side_is_eval_without_flags s id x v :
+    area_get id (st_areas s) = Some v -> apply_event s (AEval id x false false) = apply_event s (ASide id x).
+  Proof. intro G. cbn [Accum.apply_event]. unfold Accum.area_val. rewrite G. reflexivity. Qed.
+
+  (* area_preprocessing of the new areas = blanking *)
+  Lemma nodup_get i v l : NoDup (map fst l) -> In (i, v) l -> area_get i l = Some v.
+  Proof.
+    induction l as [|[j u] r IH]; cbn; [intros _ []|]. intros Hn Hin. inversion Hn as [|? ? Hnot Hr]. subst.
+    destruct Hin as [E|Hin].
+    - injection E as -> ->. rewrite Z.eqb_refl. reflexivity.
+    - destruct (j =? i) eqn:E; [|apply IH; assumption].
+      apply Z.eqb_eq in E. subst j. exfalso. apply Hnot. apply in_map_iff. exists (i, v). auto.
+  Qed.
+
+  Lemma same_ids_same_get l l' :
+    map fst l = map fst l' -> NoDup (map fst l) -> (forall id, area_get id l = area_get id l') -> l = l'.
+  Proof.
+    revert l'. induction l as [|[i u] r IH]; intros [|[j w] r'] E Hn H; cbn in E; try discriminate; [reflexivity|].
+    injection E as -> E. inversion Hn as [|? ? Hnot Hr]. subst.
+    pose proof (H j) as Hj. cbn in Hj. rewrite Z.eqb_refl in Hj. injection Hj as ->. f_equal.
+    apply IH; [exact E|exact Hr|]. intro id. pose proof (H id) as Hid. cbn in Hid.
+    destruct (j =? id) eqn:Ej; [|exact Hid].
+    apply Z.eqb_eq in Ej. subst id.
+    assert (N1 : area_get j r = None).
+    { destruct (area_get j r) eqn:G; [|reflexivity]. exfalso. apply Hnot. apply area_get_In. rewrite G. discriminate. }
+    assert (N2 : area_get j r' = None).
+    { destruct (area_get j r') eqn:G; [|reflexivity]. exfalso. apply Hnot. rewrite E. apply area_get_In. rewrite G. discriminate. }
+    rewrite N1, N2. reflexivity.
+  Qed.
+
+  Lemma pre_get l : forall s id, (forall i, In i l -> In i (ids s)) ->
+    area_get id (st_areas (apply_events (map APre l) s)) =
+    if memZ id l then (match area_get id (st_areas s) with Some _ => Some vzero | None => None end) else area_get id (st_areas s).
+  Proof.
+    induction l as [|a l IH]; intros s id H; [cbn; reflexivity|].
+    cbn [map]. change (apply_events (APre a :: map APre l) s) with (apply_events (map APre l) (apply_event s (APre a))).
+    assert (Ha : area_get a (st_areas s) <> None) by (apply area_get_In; apply H; left; reflexivity).
+    assert (Eids : ids (apply_event s (APre a)) = ids s).
+    { unfold ids. cbn [Accum.apply_event st_areas]. destruct (area_get a (st_areas s)) as [v|] eqn:G; [|congruence]. apply (area_set_ids a vzero _ v G). }
+    rewrite IH; [|intros i Hi; rewrite Eids; apply H; right; exact Hi].
+    cbn [Accum.apply_event st_areas memZ]. destruct (a =? id) eqn:E.
+    - apply Z.eqb_eq in E. subst a. rewrite area_get_set_same. cbn [orb].
+      destruct (area_get id (st_areas s)) as [v|] eqn:G; [|congruence]. destruct (memZ id l); reflexivity.
+    - apply Z.eqb_neq in E. rewrite (area_get_set_other a id vzero _ E). cbn [orb]. reflexivity.
+  Qed.
+
+  Lemma pre_is_blanking s : NoDup (ids s) -> (forall i, In i (st_new s) -> In i (ids s)) ->
+    apply_events (map APre (st_new s)) s = zero_new s.
+  Proof.
+    intros Hn H.
+    destruct (pre_total (st_new s) s) as [T [C N]].
+    assert (I : ids (apply_events (map APre (st_new s)) s) = ids s) by (apply pre_ids; exact H).
+    assert (A : st_areas (apply_events (map APre (st_new s)) s) = st_areas (zero_new s)).
+    { apply same_ids_same_get.
+      - unfold Accum.zero_new. cbn [st_areas]. rewrite zna_ids. exact I.
+      - fold (ids (apply_events (map APre (st_new s)) s)). rewrite I. exact Hn.
+      - intro id. rewrite (pre_get (st_new s) s id H). unfold Accum.zero_new. cbn [st_areas]. rewrite area_get_zna. reflexivity. }
+    destruct (apply_events (map APre (st_new s)) s) as [ar nw tt cc]. unfold Accum.zero_new in *. cbn [st_areas st_new st_total st_cont] in *.
+    subst. reflexivity.
+  Qed.
+
+  Lemma zero_new_idem s : zero_new (zero_new s) = zero_new s.
+  Proof.
+    unfold Accum.zero_new. cbn [st_areas st_new st_total st_cont]. f_equal.
+    unfold Accum.zero_new_areas. rewrite map_map. apply map_ext. intros [i v]. cbn [fst].
+    destruct (memZ i (st_new s)) eqn:M; cbn [fst]; rewrite M; reflexivity.
+  Qed.
+
+  (* the driver's evaluation of the new areas does not see what side evaluations left in them *)
+  Lemma evaluate_blind c parts s : NoDup (ids s) -> (forall i, In i (st_new s) -> In i (ids s)) ->
+    evaluate_new c parts s = evaluate_new c parts (zero_new s).
+  Proof.
+    intros Hn H. unfold Accum.evaluate_new.
+    assert (E1 : apply_events (map APre (st_new s)) s = zero_new s) by (apply pre_is_blanking; assumption).
+    assert (E2 : apply_events (map APre (st_new (zero_new s))) (zero_new s) = zero_new (zero_new s)).
+    { apply pre_is_blanking.
+      - unfold ids, Accum.zero_new. cbn [st_areas]. rewrite zna_ids. exact Hn.
+      - unfold ids, Accum.zero_new. cbn [st_areas st_new]. rewrite zna_ids. exact H. }
+    rewrite E1, E2, zero_new_idem. reflexivity.
+  Qed.
+
+  (* a state in which the new areas carry no value is its own blanking *)
+  Lemma zero_new_fix s : NoDup (ids s) -> NewZero s -> zero_new s = s.
+  Proof.
+    intros Hn Hz. unfold Accum.zero_new.
+    assert (E : zero_new_areas (st_new s) (st_areas s) = st_areas s).
+    { apply same_ids_same_get; [apply zna_ids|rewrite zna_ids; exact Hn|].
+      intro id. rewrite area_get_zna. destruct (memZ id (st_new s)) eqn:M; [|reflexivity].
+      apply memZ_In in M. rewrite (Hz id M). reflexivity. }
+    rewrite E. destruct s; reflexivity.
+  Qed.
+
+  (* the driver with interleaved side / estimate evaluations *)
+  Definition stepx_ok (s : astate) (st : dstep V) : Prop :=
+    match st with
+    | DEvaluate _ => True
+    | DRefine removed added => st_new s = [] /\ refine_ok s removed added     (* refine() follows an evaluation *)
+    | DEvaluateDW _ => False
+    | DSide id _ => side_ok s id
+    | DEstimate _ => True
+    end.
+
+  Fixpoint wfx_from (s : astate) (steps : list (dstep V)) : Prop :=
+    match steps with
+    | [] => True
+    | st :: r => stepx_ok s st /\ wfx_from (apply_step true s st) r
+    end.
+
+  (* REFINEMENT: modulo the values of not yet evaluated new areas, the driver with side evaluations is the driver without *)
+  Theorem side_evaluations_invisible steps : forall s t,
+    Inv2 t -> zero_new s = t -> wfx_from s steps ->
+    zero_new (run_steps true steps s) = run_steps true (strip_sides steps) t /\ Inv2 (run_steps true (strip_sides steps) t).
+  Proof.
+    induction steps as [|st r IH]; intros s t Ht E W; [cbn; auto|].
+    destruct W as [Wk Wr].
+    assert (Eids : ids s = ids t) by (rewrite <- E; unfold ids, Accum.zero_new; cbn [st_areas]; rewrite zna_ids; reflexivity).
+    assert (Enew : st_new s = st_new t) by (rewrite <- E; reflexivity).
+    destruct Ht as [Hi Hz]. pose proof Hi as [Hn _].
+    assert (Hsub : forall i, In i (st_new s) -> In i (ids s)).
+    { intros i Hin. rewrite Eids. apply area_get_In. rewrite Enew in Hin. rewrite (Hz i Hin). discriminate. }
+    destruct st as [parts|removed added|xs|id x|id]; cbn [Accum.run_steps fold_left Accum.strip_sides filter Accum.is_side negb Accum.apply_step] in *.
+    - (* evaluate *)
+      fold (run_steps true r (evaluate_new true parts s)). fold (strip_sides r). fold (run_steps true (strip_sides r) (evaluate_new true parts t)).
+      assert (Es : evaluate_new true parts s = evaluate_new true parts t).
+      { rewrite (evaluate_blind true parts s); [rewrite E; reflexivity|rewrite Eids; exact Hn|exact Hsub]. }
+      apply IH; [apply inv2_evaluate_clear; split; assumption| |exact Wr].
+      rewrite Es. apply zero_new_clear. unfold Accum.evaluate_new. reflexivity.
+    - (* refine *)
+      fold (run_steps true r (refine_step removed added s)). fold (strip_sides r). fold (run_steps true (strip_sides r) (refine_step removed added t)).
+      destruct Wk as [Wn Wk].
+      rewrite (zero_new_clear s Wn) in E. subst t. pose proof (inv2_refine s removed added Hi Wk) as H2.
+      apply IH; [exact H2| |exact Wr].
+      apply zero_new_fix; [exact (proj1 (proj1 H2))|exact (proj2 H2)].
+    - destruct Wk.
+    - (* side evaluation *)
+      fold (run_steps true r (apply_event s (ASide id x))). fold (strip_sides r).
+      apply IH; [split; assumption| |exact Wr]. rewrite side_invisible; [exact E|exact Wk].
+    - (* estimate *)
+      fold (run_steps true r s). fold (strip_sides r). apply IH; [split; assumption|exact E|exact Wr].
+  Qed.
+
+  (* the accumulator invariant of a driver with side evaluations: Inv2 modulo blanking *)
+  Definition InvS (s : astate) : Prop := Inv2 (zero_new s).
+
+  Theorem side_preserves_invariant s id x : side_ok s id -> InvS s -> InvS (apply_event s (ASide id x)).
+  Proof. intros H I. unfold InvS. rewrite side_invisible; assumption. Qed.
+
+  Theorem running_total_inv_with_sides steps s : Inv2 s -> wfx_from s steps -> InvS (run_steps true steps s).
+  Proof.
+    intros H W. unfold InvS.
+    destruct (side_evaluations_invisible steps s s H (zero_new_fix s (proj1 (proj1 H)) (proj2 H)) W) as [E I]. rewrite E. exact I.
+  Qed.
+
+  (* what a caller sees: reported value and container value of the run with side evaluations are those of the run without *)
+  Corollary side_evaluations_same_result steps s : Inv2 s -> wfx_from s steps ->
+    st_total (run_steps true steps s) = st_total (run_steps true (strip_sides steps) s) /\
+    st_cont (run_steps true steps s) = st_cont (run_steps true (strip_sides steps) s) /\
+    st_total (run_steps true steps s) = vsum (map snd (st_areas (run_steps true (strip_sides steps) s))).
+  Proof.
+    intros H W.
+    destruct (side_evaluations_invisible steps s s H (zero_new_fix s (proj1 (proj1 H)) (proj2 H)) W) as [E [[_ [T _]] _]].
+    rewrite <- T, <- E. unfold Accum.zero_new. cbn [st_total st_cont]. auto.
+  Qed.
+
+  (* ================================================================ recalculate_frequently *)
+  (* as it is: every area is evaluated again on top of the kept running total *)
+  Theorem recalc_asis_doubles parts s : Inv s -> Consistent parts s ->
+    st_total (evaluate_new true parts (recalc_asis s)) = vadd (st_total s) (st_total s) /\
+    st_cont (evaluate_new true parts (recalc_asis s)) = st_total s.
+  Proof.
+    intros [Hn [T C]] Cs. unfold Accum.recalc_asis, Accum.evaluate_new. cbn [Accum.apply_event st_new st_areas st_total st_cont].
+    set (s1 := mkA (st_areas s) (map fst (st_areas s)) (st_total s) vzero).
+    destruct (evals_total parts (map fst (st_areas s)) (apply_events (map APre (map fst (st_areas s))) s1)) as [E1 E2].
+    cbn [st_total st_cont]. rewrite E1, E2.
+    destruct (pre_total (map fst (st_areas s)) s1) as [P1 [P2 _]]. rewrite P1, P2. unfold s1. cbn [st_total st_cont].
+    rewrite vadd_0_l. rewrite <- (consistent_sum parts (st_areas s) Cs), <- T. auto.
+  Qed.
+
+  Theorem recalc_fixed_total parts s : Inv s -> Consistent parts s ->
+    st_total (evaluate_new true parts (recalc_fixed s)) = st_total s /\ st_cont (evaluate_new true parts (recalc_fixed s)) = st_total s.
+  Proof.
+    intros [Hn [T C]] Cs. unfold Accum.recalc_fixed, Accum.evaluate_new. cbn [Accum.apply_event st_new st_areas st_total st_cont].
+    set (s1 := mkA (st_areas s) (map fst (st_areas s)) vzero vzero).
+    destruct (evals_total parts (map fst (st_areas s)) (apply_events (map APre (map fst (st_areas s))) s1)) as [E1 E2].
+    cbn [st_total st_cont]. rewrite E1, E2.
+    destruct (pre_total (map fst (st_areas s)) s1) as [P1 [P2 _]]. rewrite P1, P2. unfold s1. cbn [st_total st_cont].
+    rewrite !vadd_0_l. rewrite <- (consistent_sum parts (st_areas s) Cs), <- T. auto.
+  Qed.
+
   (* ---------------------------------------------------------------- dimension-wise strategy *)
   Lemma evals_dw_total xs : forall s,
     st_total (apply_events (map AEvalDW xs) s) = vadd (st_total s) (vsum xs) /\
@@ -516,4 +785,17 @@ Proof.
   transitivity (sumQ (map (fun pw : P * Qc => c * (snd pw * f (fst pw))) r)).
   - f_equal. apply map_ext. intro pw. ring.
   - apply (sumQ_map_scale c (fun pw : P * Qc => snd pw * f (fst pw)) r).
+Qed.
+
+(* ------------------------------------------------------------------ the executable invariant check is sound *)
+Lemma nodupZb_sound l : nodupZb l = true -> NoDup l.
+Proof.
+  induction l as [|x r IH]; cbn; [constructor|]. intro H. apply Bool.andb_true_iff in H. destruct H as [H1 H2].
+  constructor; [|apply IH; exact H2]. intro Hin. apply memZ_In in Hin. rewrite Hin in H1. discriminate.
+Qed.
+
+Theorem inv_checkb_sound (s : astate Qc) : inv_checkb s = true -> Inv Qc 0%Qc Qcplus s.
+Proof.
+  unfold inv_checkb. intro H. apply Bool.andb_true_iff in H. destruct H as [H H3]. apply Bool.andb_true_iff in H. destruct H as [H1 H2].
+  unfold Inv, ids. split; [apply nodupZb_sound; exact H1|]. split; [apply Qc_eq_bool_correct; exact H2|apply Qc_eq_bool_correct; exact H3].
 Qed.
